@@ -280,6 +280,11 @@ func c17Run(ctx *Ctx, idx int, seed uint64, profile string) {
 				}
 				if m.Errors {
 					upErrs = []interface{}{map[string]interface{}{"message": fmt.Sprintf("e%d", m.K), "extensions": nil}}
+					if m.K%2 == 1 {
+						// a whole-event failure: `{"data": null, "errors": […]}` in a data frame
+						payload = nil
+						ctx.Rep.Count("event with errors and data null")
+					}
 				}
 				if !ended {
 					if m.Errors {
